@@ -90,7 +90,8 @@ def check_decaps(rep, prog):
              'decoder state (no packet yet, last counter, last payload identical or different): no octet is read outside the packet or from an unwritten '
              'local; the input is freed or output exactly once; a packet with payload and a legal adaptation field that is not an identical duplicate is '
              'output with exactly the octets after the adaptation field, in order; discontinuity is flagged iff the stream starts, the adaptation field '
-             'says so or the counter is not the successor; unit-start, random-access and transport-error are forwarded; the PCR is thrown with its value')
+             'says so or the counter is not the successor; unit-start, random-access and transport-error are forwarded; the PCR is thrown with its value; and for two-packet sequences (a packet without '
+             'payload, then one with): what the first reveals - stream start, a counter that is not the last one, a discontinuity indicator - is flagged on the second')
     R = Runner(rep, 'R-decaps')
     LAST = 5
     pcrv = (0x1abcdef01, 299)
@@ -114,6 +115,41 @@ def check_decaps(rep, prog):
         for has_af, af_len, disc, rai, pcr in af_variants():
             pkt = tsref.ts_packet(cc=6, has_payload=1, has_af=has_af, af_len=af_len, disc=disc, rai=rai, pcr=pcrv if pcr else None, size=size)
             one_decaps(R, prog, u, fn, pkt, LAST, None, full=False)
+    # sequences: a packet without payload (adaptation field only: PCR, stuffing), then a packet with payload.  Its continuity
+    # counter does not count (ISO/IEC 13818-1 2.4.3.3: not incremented without payload), but what it reveals - the stream start,
+    # a counter that is not the last one, a discontinuity indicator - must reach the next payload that is delivered
+    for last_cc in (-1, LAST):
+        for cc1 in (LAST, (LAST + 3) & 15):
+            for disc1, pcr1 in ((0, 0), (1, 0), (0, 1)):
+                for cc2off in (1, 2):
+                    p1 = tsref.ts_packet(cc=cc1, has_payload=0, has_af=1, af_len=183, disc=disc1, pcr=pcrv if pcr1 else None)
+                    cc2 = (cc1 + cc2off) & 15
+                    p2 = tsref.ts_packet(cc=cc2, has_payload=1, has_af=0, af_len=0)
+                    inst = 'seq:last_cc=%d,af-only(cc=%d,disc=%d,pcr=%d),payload(cc=%d)' % (last_cc, cc1, disc1, pcr1, cc2)
+
+                    def mk(p1=p1, p2=p2, last_cc=last_cc):
+                        m = ghost.BlockMachine(prog, u, 'upipe_ts_decaps', {'last_cc': last_cc, 'lost': 0, 'discontinuity': 0}, inline=('upipe_ts_decaps_',))
+                        m.output_fns = {'upipe_ts_decaps_output'}
+                        m.f['last_uref'] = ('null',)
+                        m.run(fn, [PIPE, m.new_uref(p1), ('null',)])
+                        m.first_outputs = len([e for e in m.events if e[0] == 'output'])
+                        m.in_uref = m.new_uref(p2)
+                        return m
+
+                    def post(m, ret, last_cc=last_cc, cc1=cc1, disc1=disc1, cc2=cc2):
+                        outs = [e for e in m.events if e[0] == 'output']
+                        if m.first_outputs:
+                            return 'a packet without payload is output'
+                        if len(outs) != 1:
+                            return 'the packet with payload that follows a packet without payload is not output (outputs: %d)' % len(outs)
+                        attrs = outs[0][3]
+                        exp = last_cc == -1 or bool(disc1) or cc1 != last_cc or cc2 != ((cc1 + 1) & 15)
+                        if bool(attrs.get('flow.discontinuity')) != exp:
+                            return ('discontinuity flag is %s on the payload that follows a packet without payload (decoder state: last counter %d; that packet: '
+                                    'counter %d, discontinuity indicator %d; this one: counter %d), expected %s' % (
+                                        bool(attrs.get('flow.discontinuity')), last_cc, cc1, disc1, cc2, exp))
+                        return None
+                    R.run(fn, inst, mk, lambda m: [PIPE, m.in_uref, ('null',)], post)
     rep.tables['R-decaps'] = {'abstract_inputs': R.runs, 'paths': R.paths, 'octet_accesses_checked': R.derefs}
     if R.runs < 500:
         raise facts.AnalysisBroken('R-decaps domain shrank to %d inputs' % R.runs)
@@ -136,7 +172,7 @@ def one_decaps(R, prog, u, fn, pkt, last_cc, lastkind, full):
     inst = 'len=%d,hdr=%s,last_cc=%d,last=%s' % (len(pkt), ''.join('%02x' % x for x in pkt[:6] if isinstance(x, int)), last_cc, lastkind)
 
     def mk():
-        m = ghost.BlockMachine(prog, u, 'upipe_ts_decaps', {'last_cc': last_cc, 'lost': 0}, inline=('upipe_ts_decaps_',))
+        m = ghost.BlockMachine(prog, u, 'upipe_ts_decaps', {'last_cc': last_cc, 'lost': 0, 'discontinuity': 0}, inline=('upipe_ts_decaps_',))
         m.output_fns = {'upipe_ts_decaps_output'}
         last = None
         if lastkind == 'same' and d:
